@@ -39,4 +39,12 @@ PLAN = {
         'assumptions': ['A-lt: sorted() may run a user __lt__; a TypeError from it is swallowed by design (represent_mapping)'],
         'explanation': 'exception transparency: no handler can catch a stream or callback exception; output is append-only; frame of C11 for "usable afterwards"',
     },
+    'C13': {
+        'fronts': [],
+        'bounded': [],
+        'assumptions': ['the event source delivers a word of the event grammar (wf_events); check_event/peek_event/get_event are assumed against the ghost event sequence',
+                        'constructor protocol (PROTO) is assumed of registered constructors and of generator resumption',
+                        'descend_resolver / ascend_resolver / resolve are used through their frames only'],
+        'explanation': 'composer: alias = identity of the anchored node, define-before-use, duplicate rejection, node registered before its children, anchors reset per document; constructor: node->object cache, recursion guard, deep flag restored, caches reset per document',
+    },
 }
